@@ -113,6 +113,9 @@ func (t *XMPPTransport) StartTLS() error {
 }
 
 func (t *XMPPTransport) Ping() error {
+	if t.conn == nil {
+		return errors.New("cannot ping: not connected")
+	}
 	n, err := t.conn.Write([]byte("\n"))
 	if err != nil {
 		return err
